@@ -21,6 +21,15 @@ def _drop_ops(trace, c, idxs):
     keep = [i for i in range(len(t['callers'][c])) if i not in idxs]
     remap = {old: new for new, old in enumerate(keep)}
     t['callers'][c] = [t['callers'][c][i] for i in keep]
+    # operands that are results of earlier operations: follow the renumbering, or become stand-alone
+    for op in t['callers'][c]:
+        for a in op.get('args', []):
+            if a.get('k') == 'prev':
+                if a['i'] in remap:
+                    a['i'] = remap[a['i']]
+                else:
+                    a['k'] = 'opres'
+                    a.pop('i', None)
     nf = []
     for f in t.get('faults', []):
         if f['caller'] != c:
